@@ -65,13 +65,13 @@ theorem consistent_same_name (e pe : Nat) (h : M.consistent e pe = true)
     (hn : (M.info e).name = (M.info pe).name) : (M.info e).ty = (M.info pe).ty := by
   unfold Ctx.consistent at h
   simp only [he, hpe, Bool.and_self, Bool.not_true, Bool.false_eq_true, if_false] at h
-  by_cases hv : M.v11 = true
-  · simp only [hv, Bool.not_true, Bool.false_eq_true, if_false, hn, beq_self_eq_true, if_true, beq_iff_eq] at h
-    exact h
-  · simp only [hv, Bool.not_false, if_true, Bool.or_eq_true, bne_iff_ne, beq_iff_eq] at h
+  by_cases hv : (!M.v11 && !M.fx.edc10) = true
+  · simp only [hv, if_true, Bool.or_eq_true, bne_iff_ne, beq_iff_eq] at h
     rcases h with h | h
     · exact absurd hn h
     · exact h
+  · simp only [hv, Bool.false_eq_true, if_false, hn, beq_self_eq_true, if_true, beq_iff_eq] at h
+    exact h
 
 /-- invariant of the `paths` dict -/
 structure Inv (visited : List Nat) (d : List Entry) : Prop where
